@@ -108,7 +108,9 @@ def run_tlc(
             cfg_path = os.path.join(work, cfg_file or (module + '.cfg'))
         # TLC creates a scratch directory under java.io.tmpdir on every start:
         # keep it inside the work directory, which is removed afterwards
-        cmd = ['java', '-XX:+UseParallelGC', '-Xmx6g',
+        # -Xss: recursive operators over long recorded traces (RunsToEnd, Cat)
+        # need a deep evaluation stack
+        cmd = ['java', '-XX:+UseParallelGC', '-Xmx6g', '-Xss256m',
                f'-Djava.io.tmpdir={work}']
         cmd += java_opts or []
         cmd += ['-cp', f'{JAR}:{DEPS}', 'tlc2.TLC',
